@@ -5,11 +5,11 @@ import json, os, re
 HERE = os.path.dirname(os.path.abspath(__file__))
 LEAN = os.path.join(os.path.dirname(HERE), "lean")
 NOT_YET = {
-    "C01": ["the hand-unrolled sqlite3 chained reader is modelled by its format-level reader (agreement with the C is sampled by the correspondence, not proved); chained/chained-simple/split/external bodies are tied by the correspondence only (the tagged family is tied by the translator + bridge theorems for all inputs)"],
+    "C01": ["chained-simple/split/external bodies are tied by the correspondence only (the tagged family is tied by the translator + bridge theorems for all inputs; the unrolled chained reader is transcribed literally and proved equal to the format-level reader, the transcription itself is tied by the correspondence; a machine translation of it exists in Gen/CChained.lean)"],
     "C04": ["Elias gamma/delta bit definitions are carried with the Elias model under C02/C03 (code lengths proved there)"],
     "C02": ["the FOR block reader: model = code on the correspondence stream and the monitors check the implementation, theorem not yet written (every codec round trip IS proved: delta, zigzag, FOR + random access, RLE ± header + random access, group + random access, dictionary, Elias gamma/delta, PFOR at every threshold, BP128 all four forms)"],
-    "C03": ["adaptive bound (the arms' bounds are proved, the combination is not): monitors + correspondence only so far"],
-    "C13": ["PFOR takes no capacity (its decoder trusts the stored count: covered by C14-style monitors only); adaptive capacity theorem: monitors + correspondence only so far"],
+    "C03": [],
+    "C13": ["PFOR takes no capacity (its decoder trusts the stored count)"],
     "C16": ["Elias, BP128, adaptive, float metadata structs: monitors + correspondence only so far (FOR, RLE, group, PFOR are proved)"],
     "C05": [],
     "C11": [],
@@ -21,7 +21,7 @@ NOT_YET = {
             "carried only as request-count tables tied by the correspondence (abortAll_spec), their value-level result under "
             "refusal is 'failure or the undisturbed result' by observation; (or/and/xor/andNot are now exact: *_exact)"],
     "C14": ["termination is by construction (total functions with explicit fuel) and the fuel of every loop is PROVED adequate for arbitrary bytes (rle_runcount_fuel_adequate, elias_gamma_fuel_adequate, rle_fuel_adequate, bp128_fuel_adequate, search_fuel_adequate)"],
-    "C06": ["losslessness of the PFOR, DICT and BITMAP arms (their codecs have no round-trip theorem yet) and hence the unconditional adaptive_roundtrip"],
+    "C06": ["the selector's float comparisons are parameters of the theorems (they hold for every outcome); count < 2^32 (the PFOR count field)"],
     "C07": [],
     "C10": ["half-float cells not covered (F16C-only code)"],
     "C08": ["clone is the identity in the model (the C's deep copy is compared by the histories); the three containers are abstracted to one bit set in the model (their equivalence with the C is sampled by the histories)"],
